@@ -74,6 +74,8 @@ pub struct Hist<'c> {
 	/// C11: histories that deliberately submit transactions conflicting with a postponed one
 	pub f4_probe: bool,
 	pub fresh_key_counter: u64,
+	/// C11: reader handles obtained but not (yet) locked
+	pub handles: Vec<(Vec<u8>, std::sync::Arc<LockOf>)>,
 }
 
 pub fn run_case(ctx: &Ctx, rep: &mut Report, profile: Profile, case_seed: u64, variant: u64) {
@@ -271,6 +273,7 @@ impl<'c> Hist<'c> {
 			tainted: BTreeSet::new(),
 			f4_probe: profile == Profile::C11 && variant % 3 == 0,
 			fresh_key_counter: 0,
+			handles: vec![],
 		}
 	}
 
@@ -482,6 +485,7 @@ impl<'c> Hist<'c> {
 				7 => {
 					drop(iter.take());
 					guards.clear();
+					self.handles.clear();
 					return Ok(())
 				},
 				8 => {
@@ -510,6 +514,7 @@ impl<'c> Hist<'c> {
 			self.log("release all tree guards".into());
 			guards.clear();
 		}
+		self.handles.clear();
 		Ok(())
 	}
 
@@ -958,6 +963,29 @@ impl<'c> Hist<'c> {
 			return Ok(())
 		}
 		if live.is_empty() {
+			return Ok(())
+		}
+		// a reader handle may be obtained long before it is locked: keep some unlocked handles
+		// around and lock them later (the registry must still protect the tree then)
+		if r == 3 && self.handles.len() < 3 {
+			let k = self.rng.pick(&live).clone();
+			if let Ok(Some(t)) = db.get_tree(c, &k) {
+				self.log(format!("obtain (unlocked) reader handle of tree {}", short_bytes(&k)));
+				self.handles.push((k, t));
+				rep.count("handles_obtained_unlocked", 1);
+			}
+			return Ok(())
+		}
+		if r == 4 && !self.handles.is_empty() && guards.len() < 3 {
+			let i = self.rng.usize(self.handles.len());
+			let (k, t) = self.handles.remove(i);
+			if tm.roots.contains_key(&k) && !guards.iter().any(|g| g.1 == k) {
+				self.log(format!("lock the reader handle of tree {} obtained earlier", short_bytes(&k)));
+				let held = Held::new(t);
+				guards.push((c, k, Box::new(held)));
+				rep.count("guards_taken", 1);
+				rep.count("old_handles_locked", 1);
+			}
 			return Ok(())
 		}
 		if r < 7 && guards.len() < 3 {
